@@ -299,3 +299,16 @@ def _os_stat(L, name, **kw):
         L.ctx.fact(z3.And(size >= 0, (size == 0) == (n == 0)))
         return Opaque('stat_result', st_size=size)
     raise Unsupported('os.stat of this file content')
+
+
+@model('os.path.exists')
+def _exists(L, name):
+    return name in L.ctx.ghost.setdefault('files', {})
+
+
+@model('os.path.splitext')
+def _splitext(L, name):
+    import os
+    if not isinstance(name, str):
+        raise Unsupported('splitext of a symbolic path')
+    return os.path.splitext(name)
